@@ -678,6 +678,12 @@ def c09_scope(res, pid, rng, tier):
             s_ = L.gen_secret(rng, cls_)
             for term, tail_ in ((",", " privilege 15"), (";", " ## SECRET-DATA"), ("]", " extra"), ("}", " more")):
                 extra.append((f_.format(s_) + term + tail_ + "\n", "", f_.replace("{}", "{}" + term + tail_), s_))
+        # (iii) the two AWS forms with a 32-character key of every class a key can have (free text, all digits, hexadecimal)
+        for f_ in L.AWS_FORMS:
+            for s_ in ("".join(rng.choice(L.B64.replace("/", "").replace("+", "")) for _ in range(31)) + "Z",
+                       "".join(rng.choice("0123456789") for _ in range(32)),
+                       "".join(rng.choice("0123456789abcdef") for _ in range(31)) + "f"):
+                extra.append((f_.format(s_) + "\n", "", f_, s_))
         try:
             cfg_ = fa.FaCfg(salt=cfg.salt, pwd=True, undo=(r % 4 == 3))      # (also with --undo: secrets are still anonymized)
             xouts, _ = run_lines(cfg_, [e[0] for e in extra])
